@@ -597,11 +597,23 @@ func checkTermination(c *Ctx, scope []*ssa.Function) {
 					pos := u.bdd.Implies(ct.Cont, u.bdd.Var(v))
 					neg := u.bdd.Implies(ct.Cont, u.bdd.Not(u.bdd.Var(v)))
 					if at.Op == "lt" {
-						if ct.Step > 0 && ((pos && at.Args[0] == ct.Idx) || (neg && at.Args[1] == ct.Idx)) {
-							okB = true
-						}
-						if ct.Step < 0 && ((pos && at.Args[1] == ct.Idx) || (neg && at.Args[0] == ct.Idx)) {
-							okB = true
+						// a < b stops holding as the index moves when a grows / b shrinks with it
+						ma, oka := monoIn(u, at.Args[0], ct.Idx)
+						mb, okb := monoIn(u, at.Args[1], ct.Idx)
+						if oka && okb && (ma != 0 || mb != 0) {
+							dir := 0 // +1: a-b increases with idx, -1: decreases
+							switch {
+							case ma >= 0 && mb <= 0:
+								dir = 1
+							case ma <= 0 && mb >= 0:
+								dir = -1
+							}
+							if ct.Step > 0 && ((pos && dir == 1) || (neg && dir == -1)) {
+								okB = true
+							}
+							if ct.Step < 0 && ((pos && dir == -1) || (neg && dir == 1)) {
+								okB = true
+							}
 						}
 					}
 					if at.Op == "eq" && neg && (at.Args[0] == ct.Idx || at.Args[1] == ct.Idx) && (ct.Step == 1 || ct.Step == -1) {
@@ -1003,4 +1015,39 @@ func tokenizerLoop(c *Ctx, u *U, s *Summary, l *Loop) bool {
 		}
 	}
 	return okCont && okCall
+}
+
+// monoIn classifies e as a function of idx: +1 for idx, idx+c, c+idx, idx-c;
+// -1 for c-idx; 0 (ok) when e does not mention idx; !ok otherwise.  c may be
+// any expression that does not mention idx.
+func monoIn(u *U, e, idx *E) (int, bool) {
+	mentions := func(x *E) bool { return u.Mentions(x, func(y *E) bool { return y == idx }) }
+	if e == idx {
+		return 1, true
+	}
+	if !mentions(e) {
+		return 0, true
+	}
+	if e.Op == "bin" && (e.Aux == "+" || e.Aux == "-") {
+		a, b := e.Args[0], e.Args[1]
+		ma, oka := monoIn(u, a, idx)
+		mb, okb := monoIn(u, b, idx)
+		if !oka || !okb {
+			return 0, false
+		}
+		if e.Aux == "-" {
+			mb = -mb
+		}
+		if ma != 0 && mb != 0 && ma != mb {
+			return 0, false
+		}
+		if ma != 0 {
+			return ma, true
+		}
+		return mb, true
+	}
+	if e.Op == "convert" && isIntLike(e) && isIntLike(e.Args[0]) {
+		return monoIn(u, e.Args[0], idx)
+	}
+	return 0, false
 }
